@@ -181,6 +181,18 @@ func (tp *TableParser) ParseTable(tbl tableXML) ParsedTable {
 	return parsed
 }
 
+// maxTableSpan bounds span and repeat counts read from the document. They are
+// used as loop counts and slice sizes; no real table comes near this size, and a
+// damaged attribute (2147483648, 9223372036854775807) must not be taken at its word.
+const maxTableSpan = 1024
+
+func clampSpan(n int) int {
+	if n > maxTableSpan {
+		return maxTableSpan
+	}
+	return n
+}
+
 // parseTableColumns extracts column widths from column definitions.
 func (tp *TableParser) parseTableColumns(cols []tableColXML) []float64 {
 	var widths []float64
@@ -201,7 +213,7 @@ func (tp *TableParser) parseTableColumns(cols []tableColXML) []float64 {
 		repeat := 1
 		if col.NumberRepeated != "" {
 			if r, err := strconv.Atoi(col.NumberRepeated); err == nil && r > 0 {
-				repeat = r
+				repeat = clampSpan(r)
 			}
 		}
 
@@ -252,14 +264,14 @@ func (tp *TableParser) parseCell(cell tableCellXML) ParsedTableCell {
 	// Parse column span
 	if cell.NumberColumnsSpanned != "" {
 		if span, err := strconv.Atoi(cell.NumberColumnsSpanned); err == nil && span > 0 {
-			parsed.ColSpan = span
+			parsed.ColSpan = clampSpan(span)
 		}
 	}
 
 	// Parse row span
 	if cell.NumberRowsSpanned != "" {
 		if span, err := strconv.Atoi(cell.NumberRowsSpanned); err == nil && span > 0 {
-			parsed.RowSpan = span
+			parsed.RowSpan = clampSpan(span)
 		}
 	}
 
